@@ -240,6 +240,8 @@ type world struct {
 	kdb   *corekeyperdatabase.Queries
 	ef    *ethFake
 	tp    *shutterservice.TriggerProcessor
+
+	reported map[string]bool // runtime issues of pgfake already reported
 }
 
 func newWorld(repo string) *world {
@@ -260,6 +262,7 @@ func newWorld(repo string) *world {
 		ctx: ctx, srv: srv, pool: pool, empty: srv.Store().Snapshot(),
 		sdb: servicedatabase.New(pool), kdb: corekeyperdatabase.New(pool),
 		ef: ef, tp: shutterservice.NewTriggerProcessor(ec, pool),
+		reported: map[string]bool{},
 	}
 }
 
@@ -273,7 +276,9 @@ func (w *world) close() {
 
 type hexBytes []byte
 
-func (b hexBytes) MarshalJSON() ([]byte, error) { return []byte(`"` + hex.EncodeToString(b) + `"`), nil }
+func (b hexBytes) MarshalJSON() ([]byte, error) {
+	return []byte(`"` + hex.EncodeToString(b) + `"`), nil
+}
 
 type trigObs struct {
 	Block uint64     `json:"block"`
@@ -289,14 +294,14 @@ func (t trigObs) ids() [][]byte {
 }
 
 type stepObs struct {
-	Out      string    `json:"out"` // none | db | triggers | shares | anomaly
-	Accepted bool      `json:"accepted,omitempty"`
-	Triggers []trigObs `json:"triggers,omitempty"`
-	ShareErr string    `json:"share_err,omitempty"`
-	MsgEon   uint64    `json:"msg_eon,omitempty"`
-	MsgIndex uint64    `json:"msg_index,omitempty"`
+	Out      string     `json:"out"` // none | db | triggers | shares | anomaly
+	Accepted bool       `json:"accepted,omitempty"`
+	Triggers []trigObs  `json:"triggers,omitempty"`
+	ShareErr string     `json:"share_err,omitempty"`
+	MsgEon   uint64     `json:"msg_eon,omitempty"`
+	MsgIndex uint64     `json:"msg_index,omitempty"`
 	MsgIds   []hexBytes `json:"msg_ids,omitempty"`
-	Anomaly  string    `json:"anomaly,omitempty"`
+	Anomaly  string     `json:"anomaly,omitempty"`
 }
 
 var shareErrCtor = map[string]string{
@@ -699,7 +704,11 @@ func (w *world) runHist(run *vh.Run, c histCase) {
 		}
 	}
 	for _, is := range w.srv.RuntimeIssues() {
-		run.Tie("pgfake runtime issue: " + is.String())
+		key := is.Kind + " " + is.Stmt
+		if !w.reported[key] { // once per statement, not once per history
+			w.reported[key] = true
+			run.Tie("pgfake runtime issue: " + is.Kind + " " + is.Stmt + ": " + is.Detail)
+		}
 	}
 	w.srv.ClearRuntimeIssues()
 	cterm := vh.CApp("mkConfig", vh.CStr(uniEnc[0]), vh.CBool(c.Events), cU(c.MaxKeys))
